@@ -52,7 +52,7 @@ class C02(Sim):
     ]
     real_vs_stub = {"both replicas: Engine, variables, terms, norms, hedges, rules, activation, defuzzifiers": "real",
                     "row source, segmentation, setter choice": "simulator"}
-    tiers = {"quick": (1600, 75.0), "thorough": (300000, 1500.0)}
+    tiers = {"quick": (12000, 75.0), "thorough": (2000000, 1500.0)}
     chunk = 20
     expected_probes = [
         "nan_row_after_boundary_lock_previous", "nan_first_row_after_restart_with_default", "out_of_range_row_lock_range",
